@@ -3,11 +3,28 @@
    Partial claim: the theorems are about the transcription coq/Impl/Xen.v of the guards
    (src/volatile_memory.rs) and of the on-demand window machinery (src/mmap/xen.rs), with the device
    answers as inputs; a real Xen hypervisor is not reached (the harness emulates gntdev/privcmd). *)
-From VM Require Import Prelude.MachInt Prelude.Outcome Impl.MmapBuild Impl.Xen Spec.C17 Suite.C17 Proofs.C17.
+From VM Require Import Prelude.MachInt Prelude.Outcome Impl.MmapBuild Impl.Xen Spec.C17 Suite.C17 Proofs.C17 Proofs.C17Hist.
 
 (* the standard-build model satisfies the executable checker on every input *)
 Theorem C17_model_ok : forall c, c_kind c < 3 -> ok_C17 c (run_C17 c) = true.
 Proof. exact C17_model_ok_lemma. Qed.
+
+(* the Xen model satisfies the executable history checker ok_C17x on EVERY history: any region kind
+   (unix / foreign / grant mapped in advance / grant mapped on demand), any region size and guest base
+   (page aligned, fewer than 2^32 pages, below 2^63), any page size, any list of operations of any
+   length with any operands - completed, failing and panicking ones - in both build profiles; i.e.
+   every touched range is covered by a window logged by the same operation, every window is released
+   when the operation ends, nothing remains mapped at the end.  Only the two unguarded entry points of
+   the known-finding candidate F6b (opcodes 9, 10) are excluded on on-demand regions, where the property
+   is refuted (C17_unguarded_refuted). *)
+Theorem C17x_model_ok : forall c ops,
+  (cx_rkind c < 4 /\ 0 < cx_page c /\ cx_gbase c mod cx_page c = 0 /\
+   cx_gbase c + cx_size c + cx_page c <= 4294967296 * cx_page c /\
+   cx_gbase c + cx_size c + cx_page c < 9223372036854775808) ->
+  xops_of (cx_ops c) = Some ops ->
+  (cx_rkind c = 3 -> forall x, In x (cx_ops c) -> x_code x <> 9 /\ x_code x <> 10) ->
+  ok_C17x c (run_C17x c ops) = true.
+Proof. exact C17x_model_ok_lemma. Qed.
 
 (* guard_len_bytes: a pointer guard taken from a slice, a typed reference or an element array has
    as its length the number of bytes the accessor covers - all three accessor kinds, every element
@@ -86,6 +103,7 @@ Example C17_nonvacuous :
 Proof. vm_compute. repeat split. Qed.
 
 Print Assumptions C17_model_ok.
+Print Assumptions C17x_model_ok.
 Print Assumptions C17_guard_len_bytes.
 Print Assumptions C17_window_covers.
 Print Assumptions C17_access_inside_window.
